@@ -693,7 +693,7 @@ def run_launch(case: dict[str, Any]) -> Outcome:
 
 
 def main(chk: Check) -> None:
-    chk.explore("accept", _accept_cases(), run_accept, quick=450, thorough=25000)
-    chk.explore("accept_edge", _accept_edge_cases(), run_accept, quick=900, thorough=16000)
-    chk.explore("launch", _launch_cases(), run_launch, quick=350, thorough=12000)
-    chk.explore("launch_gc", _launch_gc_cases(), run_launch, quick=600, thorough=16000)
+    chk.explore("accept", _accept_cases(), run_accept, quick=450, thorough=16000)
+    chk.explore("accept_edge", _accept_edge_cases(), run_accept, quick=900, thorough=12000)
+    chk.explore("launch", _launch_cases(), run_launch, quick=350, thorough=10000)
+    chk.explore("launch_gc", _launch_gc_cases(), run_launch, quick=600, thorough=12000)
